@@ -418,6 +418,190 @@ func cmdTokens(args []string) {
 	emit(map[string]interface{}{"ok": true, "tokens": toks, "syntax_errors": nerr})
 }
 
+// ---------------------------------------------------------------------------------------------
+// models : one DSL path per stdin line -> one JSON line with the PROJECTION of the BinaryModel that
+// spec/Model.tla defines (ModelOf): configuration, MetaData map, packets in order, every field with its
+// resolved attribute.  Pointers are followed and reported by NAME, so aliasing is not visible here
+// (the structural digest of seq/seqs sees that).
+type fieldP struct {
+	Name  string      `json:"name"`
+	Kind  string      `json:"kind"`
+	Ty    string      `json:"ty"`
+	Rep   bool        `json:"rep"`
+	N     int         `json:"n"`
+	Pad   string      `json:"pad"`
+	Pkt   string      `json:"pkt"`
+	Fs    []fieldP    `json:"fs"`
+	Key   string      `json:"key"`
+	KeyTy string      `json:"keyty"`
+	Pairs [][2]string `json:"pairs"`
+	Tgt   string      `json:"tgt"`
+	Alg   string      `json:"alg"`
+	Len   string      `json:"len"`
+	Doc   string      `json:"doc"`
+	Tag   int         `json:"tag"`
+	Line  int         `json:"line"`
+}
+type pktP struct {
+	Name   string   `json:"name"`
+	Root   bool     `json:"root"`
+	LenFld string   `json:"lenfld"`
+	Fields []fieldP `json:"fields"`
+	Names  []string `json:"names"` // FieldMap keys, sorted
+	Match  []string `json:"match"` // MatchFields keys, sorted
+	Line   int      `json:"line"`
+}
+type metaP struct {
+	Name string `json:"name"`
+	Kind string `json:"kind"`
+	Ty   string `json:"ty"`
+	N    int    `json:"n"`
+	Pad  string `json:"pad"`
+	Desc string `json:"desc"`
+	Line int    `json:"line"`
+}
+
+func padText(p *model.Padding) string {
+	if p == nil {
+		return "nil"
+	}
+	side := "R"
+	if p.PadLeft {
+		side = "L"
+	}
+	return side + strings.ReplaceAll(p.PadChar, "\x00", "<NUL>")
+}
+
+func attrP(a model.FieldAttribute, f *fieldP) {
+	switch c := a.(type) {
+	case nil:
+		f.Kind = "nil"
+	case *model.BasicFieldAttribute:
+		f.Kind, f.Ty = "basic", c.GetType()
+	case *model.FixedStringFieldAttribute:
+		f.Kind, f.Ty, f.N, f.Pad = "fix", "string", c.Length, padText(c.Padding)
+	case *model.DynamicStringFieldAttribute:
+		f.Kind, f.Ty = "dyn", "string"
+	case *model.ObjectFieldAttribute:
+		f.Kind, f.Pkt = "obj", c.PacketName
+		if c.IsIner {
+			f.Kind = "inl"
+		}
+		if c.RefPacket == nil {
+			f.Ty = "?"
+		} else {
+			f.Ty = c.RefPacket.Name
+			if c.IsIner {
+				f.Fs = fieldsP(c.RefPacket.Fields)
+			}
+		}
+	case *model.MatchFieldAttribute:
+		f.Kind = "match"
+		if c.MatchKeyField != nil {
+			f.Key = c.MatchKeyField.Name
+			if c.MatchKeyField.Attr != nil {
+				f.KeyTy = c.MatchKeyField.GetType()
+			}
+		}
+		for _, p := range c.MatchPairs {
+			f.Pairs = append(f.Pairs, [2]string{p.Key, p.Value})
+		}
+	case *model.LengthFieldAttribute:
+		f.Kind, f.Ty = "len", c.GetType()
+		if c.TragetField != nil {
+			f.Tgt = c.TragetField.Name
+		}
+	case *model.CheckSumFieldAttribute:
+		f.Kind, f.Ty, f.Alg = "ck", c.GetType(), c.CheckSumType
+	default:
+		f.Kind = fmt.Sprintf("%T", a)
+	}
+}
+
+func fieldsP(fs []*model.Field) []fieldP {
+	out := []fieldP{}
+	for _, x := range fs {
+		f := fieldP{Name: x.Name, Rep: x.IsRepeat, Doc: x.Doc, Tag: x.Tag, Line: x.Line, Fs: []fieldP{}, Pairs: [][2]string{}, Pad: "-"}
+		attrP(x.Attr, &f)
+		switch l := x.LenAttr.(type) {
+		case nil:
+			f.Len = ""
+		case *model.LengthOfAttribute:
+			f.Len = "is-length-field"
+		case *model.LengthFieldAttribute:
+			f.Len = "measured"
+			_ = l
+		default:
+			f.Len = fmt.Sprintf("%T", x.LenAttr)
+		}
+		out = append(out, f)
+	}
+	return out
+}
+
+func modelP(m *model.BinaryModel) map[string]interface{} {
+	cfg := map[string]interface{}{}
+	if m.Config != nil {
+		cfg["ap"], cfg["sp"], cfg["le"] = m.Config.ListLenPrefixLenType, m.Config.StringLenPrefixLenType, m.Config.LittleEndian
+		cfg["javapkg"], cfg["gopkg"], cfg["gomod"] = m.Config.JavaPackage, m.Config.GoPackage, m.Config.GoModule
+		cfg["pad"] = padText(m.Config.Padding)
+	}
+	metas := []metaP{}
+	for _, k := range sortedKeys(reflect.ValueOf(m.MetaDataMap)) {
+		e := m.MetaDataMap[k]
+		f := fieldP{Pad: "-"}
+		attrP(e.Attr, &f)
+		metas = append(metas, metaP{e.Name, f.Kind, f.Ty, f.N, f.Pad, e.Description, e.Line})
+	}
+	pkts := []pktP{}
+	for _, p := range m.Packets {
+		pp := pktP{Name: p.Name, Root: p.IsRoot, Fields: fieldsP(p.Fields), Line: p.Line,
+			Names: sortedKeys(reflect.ValueOf(p.FieldMap)), Match: sortedKeys(reflect.ValueOf(p.MatchFields))}
+		if p.LengthField != nil {
+			pp.LenFld = p.LengthField.Name
+		}
+		pkts = append(pkts, pp)
+	}
+	root := ""
+	if m.RootPacket != nil {
+		root = m.RootPacket.Name
+	}
+	return map[string]interface{}{"config": cfg, "metas": metas, "pkts": pkts, "root": root,
+		"pktnames": sortedKeys(reflect.ValueOf(m.PacketsMap)), "options": m.Options}
+}
+
+func sortedKeys(v reflect.Value) []string {
+	out := []string{}
+	if v.Kind() != reflect.Map {
+		return out
+	}
+	for _, k := range v.MapKeys() {
+		out = append(out, k.String())
+	}
+	sort.Strings(out)
+	return out
+}
+
+func cmdModels() {
+	sc := bufio.NewScanner(os.Stdin)
+	for sc.Scan() {
+		path := strings.TrimSpace(sc.Text())
+		po := parse(path)
+		out := map[string]interface{}{"path": path, "ok": po.Ok, "err": po.Err, "panic": po.Panic, "diags": po.Diags}
+		if po.m != nil && po.Panic == "" {
+			func() {
+				defer func() {
+					if r := recover(); r != nil {
+						out["panic"] = "projection: " + fmt.Sprint(r)
+					}
+				}()
+				out["model"] = modelP(po.m)
+			}()
+		}
+		emit(out)
+	}
+}
+
 func main() {
 	if len(os.Args) < 2 {
 		os.Exit(64)
@@ -435,6 +619,8 @@ func main() {
 		cmdFmts()
 	case "tokens":
 		cmdTokens(os.Args[2:])
+	case "models":
+		cmdModels()
 	default:
 		os.Exit(64)
 	}
